@@ -9,6 +9,7 @@ from pathlib import Path
 HOME = Path(__file__).resolve().parent.parent
 props = [json.loads(l) for l in (HOME / "properties.jsonl").read_text().splitlines() if l.strip()]
 
+READY = set(json.loads((HOME / "tools" / "ready.json").read_text()))
 NA_REASONS = json.loads((HOME / "tools" / "not_applicable.json").read_text())
 
 
@@ -28,7 +29,7 @@ checks, na = [], []
 for p in props:
     pid = p["id"]
     f = HOME / "props" / f"{pid.lower()}.py"
-    if not f.exists() or pid in NA_REASONS.get("force", {}):
+    if not f.exists() or pid in NA_REASONS.get("force", {}) or pid not in READY:
         na.append(dict(property_id=pid, reason=NA_REASONS.get("force", {}).get(pid) or NA_REASONS.get(pid)
                        or "check not built yet (work in progress); nothing is claimed for it"))
         continue
